@@ -105,10 +105,27 @@ def make_scene(rng, name, tier):
     return data, init, lab, protos, info
 
 
-def angle_ok(v, p, tol=0.05):
-    """|cos| between fitted direction v and prototype p close to one"""
-    c = np.abs(np.sum(np.conj(p) * v, axis=-1)) / (np.linalg.norm(p, axis=-1) * np.linalg.norm(v, axis=-1))
-    return bool(np.all(c >= 1 - tol)), float(np.min(c))
+def angle_ok(v, p, tight):
+    """fitted directions v (K, D) against prototypes p (K, D): every fitted direction is closer to its own prototype
+    than to any other one ('points at'); tight additionally requires |cos| >= 0.98"""
+    v = v / np.linalg.norm(v, axis=-1, keepdims=True)
+    p = p / np.linalg.norm(p, axis=-1, keepdims=True)
+    C = np.abs(np.einsum('...kd,...jd->...kj', v, np.conj(p)))
+    own = np.einsum('...kk->...k', C)
+    ok = bool(np.all(C.argmax(-1) == np.arange(C.shape[-1])))
+    if tight:
+        ok = ok and bool(np.all(own >= 0.98))
+    return ok, float(own.min())
+
+
+def mean_ok(m, p, tight):
+    d = np.linalg.norm(m[..., :, None, :] - p[..., None, :, :], axis=-1)
+    own = np.einsum('...kk->...k', d)
+    ok = bool(np.all(d.argmin(-1) == np.arange(d.shape[-1])))
+    if tight:
+        sep = (d + np.eye(d.shape[-1]) * 1e9).min()
+        ok = ok and bool(np.all(own <= 0.05 * max(sep, 1e-12) + 0.05))
+    return ok, float(own.max())
 
 
 def evaluate(rp, rng):
@@ -120,7 +137,9 @@ def evaluate(rp, rng):
         model, trace = mm.fit(name, data, init, iterations=rp['iterations'])
         aff = mm.predict(name, model, data)
     except Exception as e:
-        return 'fit/predict raised %s: %s' % (type(e).__name__, str(e)[:200]), 'stable:raises:%s:%s' % (name, type(e).__name__), None
+        cls = 'exact-prototypes' if rp.get('pert', 1.0) == 0.0 else 'perturbed'
+        return ('fit/predict raised %s: %s' % (type(e).__name__, str(e)[:200]),
+                'stable:raises:%s:%s:%s' % (name, type(e).__name__, cls), None)
     if not np.all(np.isfinite(aff)):
         return 'posterior not finite', 'stable:nonfinite:%s' % name, None
     mapc = aff.argmax(-2)
@@ -128,42 +147,41 @@ def evaluate(rp, rng):
     if wrong:
         return ('%d of %d observations leave their true class after %d iterations (MAP != true class)'
                 % (wrong, mapc.size, rp['iterations'])), 'stable:map:%s' % name, None
-    # fitted parameters point at the prototypes (after at least one E-step has sharpened a blurred start: with a blur b
-    # the very first M-step averages b/K of every other class into each mean)
-    if rp['iterations'] < 2:
-        return None, None, None
+    # fitted parameters point at the prototypes: always in the sense "closer to the own prototype than to any other";
+    # within a small angle / distance once the start was sharp or EM had time to undo the blur
+    tight = rp.get('blur', 0.0) == 0.0 or rp['iterations'] >= 10
     if name in ('cacgmm',) or name in mm.INTEGRATION:
         U, lam = model.cacg.covariance_eigenvectors, model.cacg.covariance_eigenvalues
         top = np.take_along_axis(U, lam.argmax(-1)[..., None, None], axis=-1)[..., 0]
-        ok, c = angle_ok(top, protos['spatial'])
+        ok, c = angle_ok(top, protos['spatial'], tight)
         if not ok:
-            return 'principal cACG covariance eigenvector is not the prototype (min |cos| %.4f)' % c, 'stable:param:%s' % name, None
+            return 'principal cACG covariance eigenvector does not point at its prototype (min |cos| %.4f)' % c, 'stable:param:%s' % name, None
     if name == 'cwmm':
-        ok, c = angle_ok(model.complex_watson.mode, protos['spatial'])
+        ok, c = angle_ok(model.complex_watson.mode, protos['spatial'], tight)
         if not ok:
-            return 'Watson mode is not the prototype (min |cos| %.4f)' % c, 'stable:param:%s' % name, None
+            return 'Watson mode does not point at its prototype (min |cos| %.4f)' % c, 'stable:param:%s' % name, None
     if name == 'cbmm':
         U, lam = model.complex_bingham.covariance_eigenvectors, model.complex_bingham.covariance_eigenvalues
         top = np.take_along_axis(U, lam.argmax(-1)[..., None, None], axis=-1)[..., 0]
-        ok, c = angle_ok(top, protos['spatial'])
+        ok, c = angle_ok(top, protos['spatial'], tight)
         if not ok:
-            return 'Bingham principal axis is not the prototype (min |cos| %.4f)' % c, 'stable:param:%s' % name, None
+            return 'Bingham principal axis does not point at its prototype (min |cos| %.4f)' % c, 'stable:param:%s' % name, None
     if name == 'vmfmm':
-        ok, c = angle_ok(model.vmf.mean, protos['direction'])
+        ok, c = angle_ok(model.vmf.mean, protos['direction'], tight)
         if not ok or np.any(np.sum(model.vmf.mean * protos['direction'], -1) < 0):
-            return 'vMF mean direction is not the prototype (min cos %.4f)' % c, 'stable:param:%s' % name, None
+            return 'vMF mean direction does not point at its prototype (min cos %.4f)' % c, 'stable:param:%s' % name, None
     if name == 'gmm':
-        d = np.linalg.norm(model.gaussian.mean - protos['mean'], axis=-1)
-        if d.max() > 0.05:
-            return 'GMM mean is not the prototype mean (distance %.4f)' % d.max(), 'stable:param:%s' % name, None
-    if name == 'vmfcacgmm':
-        ok, c = angle_ok(model.vmf.mean, protos['spectral'][0])
+        ok, d = mean_ok(model.gaussian.mean, protos['mean'], tight)
         if not ok:
-            return 'vMF-cACGMM spectral mean is not the prototype (min cos %.4f)' % c, 'stable:param:%s' % name, None
+            return 'GMM mean does not point at its prototype mean (distance %.4f)' % d, 'stable:param:%s' % name, None
+    if name == 'vmfcacgmm':
+        ok, c = angle_ok(model.vmf.mean, protos['spectral'][0], tight)
+        if not ok:
+            return 'vMF-cACGMM spectral mean does not point at its prototype (min cos %.4f)' % c, 'stable:param:%s' % name, None
     if name == 'gcacgmm':
-        d = np.linalg.norm(model.gaussian.mean - protos['spectral'][0], axis=-1)
-        if d.max() > 0.05:
-            return 'GCACGMM spectral mean is not the prototype (distance %.4f)' % d.max(), 'stable:param:%s' % name, None
+        ok, d = mean_ok(model.gaussian.mean, protos['spectral'][0], tight)
+        if not ok:
+            return 'GCACGMM spectral mean does not point at its prototype (distance %.4f)' % d, 'stable:param:%s' % name, None
     # correspondence of the last M-step with the model (C08 machinery) on this scene
     coq = None
     try:
@@ -190,7 +208,8 @@ def make(rng, tier, name=None):
         for f in range(1, F):
             data['embedding'][f] = data['embedding'][0]
             protos['spectral'][f] = protos['spectral'][0]
-    rp = {'model': name, 'data': data, 'init': init, 'labels': lab, 'protos': protos, 'iterations': info['iterations']}
+    rp = {'model': name, 'data': data, 'init': init, 'labels': lab, 'protos': protos, 'iterations': info['iterations'],
+          'pert': info['pert'], 'blur': info['blur']}
     label = 'separable scene %s %s' % (name, info)
     fail, key, coq = evaluate(rp, rng)
     nt = info['max_cos'] > 0.02 and info['blur'] > 0 and len(set(info['sizes'])) > 1
